@@ -271,10 +271,18 @@ package state
 //@   ensures other_maps_untouched: mapsFrame(string, bool, nil)
 //@   ensures [C07] every_request_passes_its_method_rule: result0 && tx != nil && tx.ContractRequests != nil ==> (forall k int :: 0 <= k && k < len(tx.ContractRequests) ==> utils.CheckContractMethodPerm(t.sctx.AclMgr, allUsers, (tx.ContractRequests[k] == nil ? "" : tx.ContractRequests[k].ContractName), (tx.ContractRequests[k] == nil ? "" : tx.ContractRequests[k].MethodName)))
 //@   loop 1 invariant requests_so_far_pass: 0 <= i && i <= len(req) && req == tx.ContractRequests && mapsFrame(string, bool, nil) && (forall k int :: 0 <= k && k < i ==> utils.CheckContractMethodPerm(t.sctx.AclMgr, allUsers, (req[k] == nil ? "" : req[k].ContractName), (req[k] == nil ? "" : req[k].MethodName)))
+// What a transaction's requests say they transfer to a contract is what its outputs pay that
+// contract: the amounts of ALL outputs addressed to it, summed, equal the requested amount.
+//@ spec func paidTo(outs []*protos.TxOutput, name string, k int) int = k <= 0 ? 0 : paidTo(outs, name, k - 1) + ((outs[k - 1] == nil ? "" : str(outs[k - 1].ToAddr)) == name ? natOfS(outs[k - 1] == nil ? "" : str(outs[k - 1].Amount)) : 0)
 //@ func State.verifyContractTxAmount
-//@   noverify
+//@   property C09
+//@   trustcallees
+//@   uses natNonneg
 //@   sets passed = passInc(old(passed), tx, 4, result0)
 //@   ensures other_maps_untouched: mapsFrame(string, bool, nil)
+//@   at ParseContractTransferRequest assert [C09] amount_requested_by_this_transaction: tx != nil ==> $0 == tx.ContractRequests
+//@   ensures [C09] outputs_pay_the_contract_what_the_requests_say: result0 && tx != nil ==> paidTo(tx.TxOutputs, contractName, len(tx.TxOutputs)) == sel(bigval, amountCon)
+//@   loop 1 invariant [C09] paid_so_far: 0 <= $i && $i <= len($range) && (tx != nil ==> $range == tx.TxOutputs) && amountOut != nil && amountOut <= allocTop() && sel(bigval, amountOut) == paidTo($range, contractName, $i) && mapsFrame(string, bool, nil)
 // A transaction that rewrites account data (an account's rule, or the account a contract
 // belongs to) is accepted only if EVERY such entry of its write set names an account the
 // signers are identified for - the ones authenticated earlier in this verification or by
